@@ -107,6 +107,17 @@ type WithNilEmbedded struct{ *Embedded }
 type WithNilStringer struct{ *ValStringer }
 type WithNilStringerIface struct{ fmt.Stringer }
 
+// PanicIter is an application Iterator that fails inside Next.
+type PanicIter struct{ n int }
+
+func (p *PanicIter) Next() interface{} {
+	p.n++
+	if p.n > 1 {
+		panic("iterator failure")
+	}
+	return p.n
+}
+
 type countIter struct{ n, max int }
 
 func (c *countIter) Next() interface{} {
